@@ -42,7 +42,7 @@ def configs(tier, seed):
         if c["op"] in ("badfraction", "combofilter"):
             continue
         out.append(dict(c, name="retro " + c["name"], h="retro"))
-    out += [dict(name="random scorer", h="rand_scorer"), dict(name="dbal sub-sampling", h="dbal"),
+    out += [dict(name="random scorer", h="rand_scorer"), dict(name="dbal sub-sampling", h="dbal"), dict(name="dbal scorer reused", h="dbal_reuse"),
             dict(name="policy + select_next_plate", h="select"), dict(name="seed argument", h="seedarg"),
             dict(name="gibbs sparse_combo", h="gibbs", model="combo"), dict(name="gibbs interaction", h="gibbs", model="inter"),
             dict(name="mvn draw", h="mvn"),
@@ -193,6 +193,41 @@ def h_dbal(ctx, cfg):
     with _Streams(ctx) as st:
         gd.dbal_fast_gauss_scoring_vectorized(preds, var, D, ctx.rng("R"), max_combos=2)
     return _judge(ctx, st, "DBAL triple sub-sampling")
+
+
+def h_dbal_reuse(ctx, cfg):
+    """one scorer object used for two rounds: the second round must behave like a fresh scorer given an identically
+    seeded generator (output and number of draws consumed)"""
+    from .c05 import _Plate, _Theta
+    np = ctx.np
+    gd = ctx.mod("batchie.scoring.gaussian_dbal")
+    core = ctx.mod("batchie.core")
+    dc = ctx.mod("batchie.distance_calculation")
+    nt, sizes = 4, [1, 2]
+    holder = core.ThetaHolder(n_thetas=nt)
+    for t in range(nt):
+        holder.add_theta(_Theta(np, [0.1 * (t + 1) + 0.05 * e * (t % 2) for e in range(3)], [1.0 + 0.5 * t] * 3))
+    dm = dc.ChunkedDistanceMatrix(nt)
+    for i in range(nt):
+        for j in range(i):
+            dm.add_value(i, j, 0.3 + 0.1 * i + 0.05 * j)
+    plates = {4: _Plate(np, 3, 0, 1), 9: _Plate(np, 3, 1, 2)}
+    with _Streams(ctx) as st:
+        scorer = gd.GaussianDBALScorer(max_chunk=5, max_triples=2)
+        scorer.score(plates=plates, distance_matrix=dm, samples=holder, rng=ctx.rng("R"), progress_bar=False)
+        g2 = ctx.rng("R2")
+        second = scorer.score(plates=plates, distance_matrix=dm, samples=holder, rng=g2, progress_bar=False)
+        twin = ctx.replay_rng(g2, "R2twin")
+        fresh = gd.GaussianDBALScorer(max_chunk=5, max_triples=2).score(plates=plates, distance_matrix=dm, samples=holder, rng=twin, progress_bar=False)
+    same = sorted(second) == sorted(fresh)
+    for k in fresh:
+        if k in second:
+            same = ctx.And(same, ctx.eq(second[k], fresh[k]))
+    ctx.prove(same, "a reused scorer gives the output of a fresh scorer with an identically seeded generator",
+              key="DBAL scorer output depends on earlier calls")
+    ctx.prove(g2.count == twin.count, "a reused scorer consumes the same draws from its generator as a fresh one",
+              key="DBAL scorer output depends on earlier calls")
+    return _judge(ctx, st, "DBAL scorer reuse")
 
 
 def h_select(ctx, cfg):
@@ -373,5 +408,5 @@ def h_cli_train(ctx, cfg):
 
 def run(ctx, cfg):
     return {"retro": h_retro, "rand_scorer": h_rand_scorer, "dbal": h_dbal, "select": h_select, "seedarg": h_seedarg,
-            "gibbs": h_gibbs, "mvn": h_mvn, "cli_scores": h_cli_scores, "cli_select": h_cli_select,
+            "gibbs": h_gibbs, "mvn": h_mvn, "dbal_reuse": h_dbal_reuse, "cli_scores": h_cli_scores, "cli_select": h_cli_select,
             "cli_prepare": h_cli_prepare, "cli_train": h_cli_train}[cfg["h"]](ctx, cfg)
